@@ -388,6 +388,8 @@ def enumerated(tier, seed):
                       "origin": "skeleton %s/%s/%s%s" % (desc["loop"], "+".join(desc["wraps"]) or "-", desc["exit"], "/fn" if desc["in_fn"] else "")})
     cases += [dict(c, family="corpus") for c in c04.corpus_cases()]
     cases += operand_shape_cases()
+    # every looping / branching statement as the FIRST and as the LAST statement of a program and of function bodies of every kind
+    cases += [dict(c, family="edge-statement") for c in c04.first_statement_cases() + c04.last_statement_cases()]
     return cases
 
 
